@@ -158,6 +158,16 @@ class ScriptGrabber(HTMLParser):
             self.buf.append(data)
 
 
+class _Scripts(HTMLParser):
+    def __init__(self):
+        super().__init__()
+        self.srcs = []
+
+    def handle_starttag(self, tag, attrs):
+        if tag == 'script':
+            self.srcs += [v for k, v in attrs if k == 'src' and v]
+
+
 def extract_data(html):
     g = ScriptGrabber()
     g.feed(html)
@@ -357,6 +367,19 @@ def judge(rec, txns, hostile, rnd, tmp, with_views):
                 data = json.loads(body[len('window.spendingData ='):].rstrip(';'))
             except Exception as e:
                 rec.violation('separate-data-file-does-not-decode', f'{type(e).__name__}: {e}', case)
+                continue
+            # ... and the page itself loads the three files written beside it (a page that references no data shows an empty report)
+            try:
+                page = open(path, encoding='utf-8').read()
+                g2 = _Scripts()
+                g2.feed(page)
+                srcs = set(g2.srcs)
+            except Exception:
+                srcs = None
+            rec.count('external_pages_checked_for_their_references')
+            if srcs is not None and not {'spending_data.js', 'spending_report.js'} <= {os.path.basename(x) for x in srcs}:
+                rec.violation('page-does-not-load-its-data-file', f'report written with its files beside it: the page references the scripts {sorted(srcs)}; '
+                              f'spending_data.js and spending_report.js are both needed', case)
                 continue
         check_html_data(rec, data, stats, txns, want, case, with_views)
         # ---- the report is written AGAIN to the same path after the data changed (two amounts swapped: the text keeps its length):
